@@ -19,6 +19,7 @@ func init() {
 	register(&Property{
 		ID: "C03",
 		Explanation: "Decides: R03.1 header parameters are looked up under their canonical name (the raw declared name reaches a lookup only for non-header locations) and every direct index into an http.Header in the library uses a canonical key; R03.2 Parameter.Schema (nil for non-body parameters) is dereferenced only under a nil test; R03.3 typeForSchema returns nil only for arrays without (typed) items or for types it does not know — every known type with a format switch has a default; " +
+			"Round 12: R03.5 booleans are converted by swag.ConvertBool; R03.7 'required' is waived only by the declared default. " +
 			"R03.4 reflect operations that assert a kind on a value derived from the spec's default are enumerated (typestate on the reflect API): the kind-safe ones are tabled, the ones that panic for declarations the language allows are KNOWN FINDINGS; R03.5 numeric texts are parsed in base 10 at 64 bits and stored only after the parse succeeded and target.Overflow* said no; " +
 			"R03.6 every binder error is returned or appended to the 422 accumulator, every bound value is validated when a validator exists, validation failures are recorded, and binder errors reach validation.result; R03.7 each location reads its own source (query: URL.Query(), header: Header, path: route params, formData: MultipartForm.Value / PostForm), an unknown location is an error, and 'multi' is honoured only where allowed; R03.8 index expressions of the binding helpers are in range. " +
 			"R03.3 also: the element type of an array is computed from the items' own type, format and nested items. " +
